@@ -13,10 +13,11 @@ Lemma sep_chars_are : c_SEP_CHARS = Str ":/#".
 Proof. reflexivity. Qed.
 Lemma min_len_is : c_min_iri_min_len = 3.
 Proof. reflexivity. Qed.
-Lemma http_len_is : c_min_iri_http_len = 9.
+Lemma rule_is_bare : c_min_iri_rule_bare = true.
 Proof. reflexivity. Qed.
-Lemma http_prefix_is : c_min_iri_http_prefix = Str "http".
-Proof. reflexivity. Qed.
+Lemma bare_scheme_consts :
+  c_BARE_SCHEME_EXCL = Str ":/#" /\ c_BARE_SCHEME_COLON = Str ":" /\ c_BARE_SCHEME_MAX_SLASHES = 2%nat.
+Proof. repeat split; reflexivity. Qed.
 
 (** ** prefixes *)
 Lemma prefix_refl s : prefix s s.
@@ -238,114 +239,9 @@ Proof.
   apply (H c); [|assumption]. apply in_rev. rewrite rev_involutive. eapply prefix_In; eassumption.
 Qed.
 
-(** ** the acceptance rule is downward closed among separator-terminated prefixes *)
-Lemma http_short_down cand p :
-  http_short cand -> prefix p cand -> ends_with_sep p -> http_short p.
-Proof.
-  intros [H L] P E. split; [|pose proof (pylen_prefix _ _ P); lia].
-  destruct (Nat.le_gt_cases (List.length (Str "http")) (List.length p)) as [Le | Gt].
-  - eapply prefix_comparable; eassumption.
-  - exfalso. assert (Pp : prefix p (Str "http")) by (eapply prefix_comparable; [eassumption | eassumption | lia]).
-    destruct (ends_with_sep_In _ E) as (c & Hc & Sc).
-    pose proof (prefix_In _ _ c Pp Hc) as Hin. cbn in Hin.
-    destruct Sc as [-> | [-> | ->]]; intuition discriminate.
-Qed.
-
-(** ** [determine] *)
-Lemma determine_some l s : determine l = Some s ->
-  last_sep_prefix l s /\ 3 <= pylen s /\ ~ http_short s.
-Proof.
-  unfold determine. rewrite min_len_is, http_len_is, http_prefix_is.
-  destruct (search_sep (rev l)) as [k|] eqn:Hs; [|discriminate].
-  destruct (pylen _ <? 3) eqn:H3; [discriminate|].
-  destruct (prefixb _ _ && _) eqn:Hh; [discriminate|].
-  intros H; inversion H; subst. split; [now apply cand_spec|]. apply Z.ltb_ge in H3. split; [assumption|].
-  intros [P L]. apply andb_false_iff in Hh. destruct Hh as [Hh | Hh].
-  - apply prefixb_prefix in P. congruence.
-  - apply Z.ltb_ge in Hh. lia.
-Qed.
-
-Lemma determine_none l : determine l = None ->
-  forall p, prefix p l -> ends_with_sep p -> 3 <= pylen p -> http_short p.
-Proof.
-  unfold determine. rewrite min_len_is, http_len_is, http_prefix_is.
-  destruct (search_sep (rev l)) as [k|] eqn:Hs.
-  - pose proof (cand_spec _ _ Hs) as (Pc & Ec & Mx). set (cand := rev (skipn k (rev l))) in *.
-    destruct (pylen cand <? 3) eqn:H3.
-    + intros _ p P E L. apply Z.ltb_lt in H3. pose proof (pylen_prefix _ _ (Mx p P E)). lia.
-    + destruct (prefixb (Str "http") cand && (pylen cand <? 9)) eqn:Hh; [|discriminate].
-      intros _ p P E L. apply andb_true_iff in Hh. destruct Hh as [Hp Hl].
-      apply (http_short_down cand); [|apply Mx; assumption | assumption].
-      split; [now apply prefixb_prefix | now apply Z.ltb_lt].
-  - intros _ p P E _. exfalso. eapply no_cand; eassumption.
-Qed.
-
-(** ** the stem, with the acceptance rule as implemented: all instance lists *)
-Theorem stem_some_impl iris s :
-  well_formed_ids iris -> stem iris = Some s -> is_longest_impl s iris.
-Proof.
-  intros W H. unfold stem in H. pose proof (fold_min_iri_gcp iris W) as [C G].
-  apply determine_some in H. destruct H as ((P & E & Mx) & L & NH).
-  split.
-  - repeat split; try assumption. intros i Hi. eapply prefix_trans; [exact P | apply C, Hi].
-  - intros s' (C' & E' & _ & _). apply prefix_length, Mx; [apply G, C' | exact E'].
-Qed.
-
-Theorem stem_none_impl iris :
-  well_formed_ids iris -> stem iris = None -> forall s, ~ admissible_impl s iris.
-Proof.
-  intros W H s (C' & E' & L' & NH). unfold stem in H. pose proof (fold_min_iri_gcp iris W) as [C G].
-  apply NH. eapply determine_none; [exact H | apply G, C' | exact E' | exact L'].
-Qed.
-
-(** everywhere on well-formed ids: what is printed is a common prefix that ends
-    with a separator, has at least three characters and is the longest
-    separator-terminated common prefix *)
-Theorem stem_some_prefix_sep iris s :
-  well_formed_ids iris -> stem iris = Some s ->
-  common_prefix s iris /\ ends_with_sep s /\ 3 <= pylen s /\
-  forall s', common_prefix s' iris -> ends_with_sep s' -> (List.length s' <= List.length s)%nat.
-Proof.
-  intros W H. unfold stem in H. pose proof (fold_min_iri_gcp iris W) as [C G].
-  apply determine_some in H. destruct H as ((P & E & Mx) & L & NH).
-  repeat split; try assumption.
-  - intros i Hi. eapply prefix_trans; [exact P | apply C, Hi].
-  - intros s' C' E'. apply prefix_length, Mx; [apply G, C' | exact E'].
-Qed.
-
-Theorem stem_perm l l' : Permutation l l' -> well_formed_ids l -> stem l = stem l'.
-Proof. intros P W. unfold stem. now rewrite (fold_min_iri_perm l l' P W). Qed.
-
-(** ** the property's wording, on the domain where the two rules coincide *)
-Lemma admissible_iff_impl iris s : rules_coincide iris -> (admissible s iris <-> admissible_impl s iris).
-Proof.
-  intros R. split; intros (C & E & L & N); repeat split; try assumption; intros X; apply N; apply (R s C E L); assumption.
-Qed.
-
-Theorem stem_some iris s : C17_dom iris -> stem iris = Some s -> is_longest s iris.
-Proof.
-  intros [W R] H. destruct (stem_some_impl iris s W H) as [A Mx]. split.
-  - now apply admissible_iff_impl.
-  - intros s' A'. apply Mx. now apply admissible_iff_impl.
-Qed.
-
-Theorem stem_none iris : C17_dom iris -> stem iris = None -> forall s, ~ admissible s iris.
-Proof.
-  intros [W R] H s A. apply (stem_none_impl iris W H s). now apply admissible_iff_impl.
-Qed.
-
-(** ** the boolean domain predicate is sound *)
+(** ** [_BARE_SCHEME.fullmatch] decides "is a bare scheme" *)
 Lemma is_sepb_spec c : is_sepb c = true <-> is_sep c.
 Proof. unfold is_sepb, is_sep. rewrite !orb_true_iff, !Ascii.eqb_eq. tauto. Qed.
-
-Lemma ends_with_sepb_spec s : ends_with_sepb s = true <-> ends_with_sep s.
-Proof.
-  unfold ends_with_sepb. split.
-  - destruct (rev s) as [|c r] eqn:E; [discriminate|]. intros H.
-    exists (rev r), c. split; [|now apply is_sepb_spec].
-    rewrite <- (rev_involutive s), E. reflexivity.
-  - intros (s0 & c & -> & S). rewrite rev_unit. now apply is_sepb_spec.
-Qed.
 
 Lemma span_scheme_spec s : forall a b, span_scheme s = (a, b) ->
   s = a ++ b /\ sep_free a.
@@ -381,101 +277,134 @@ Proof.
       rewrite (span_scheme_app sch _ _ F S); destruct sch; try contradiction; reflexivity.
 Qed.
 
-Lemma http_shortb_spec s : http_shortb s = true <-> http_short s.
-Proof. unfold http_shortb, http_short. now rewrite andb_true_iff, prefixb_prefix, Z.ltb_lt. Qed.
-
-Lemma common_prefixb_spec s iris : forallb (prefixb s) iris = true <-> common_prefix s iris.
+Lemma in_excl_is_sepb c : in_excl c = is_sepb c.
 Proof.
-  unfold common_prefix. rewrite forallb_forall. split; intros H i Hi; apply prefixb_prefix, H, Hi.
+  unfold in_excl, is_sepb. destruct bare_scheme_consts as (-> & _ & _). cbn.
+  destruct (Ascii.eqb c ":"), (Ascii.eqb c "/"), (Ascii.eqb c "#"); reflexivity.
 Qed.
 
-Lemma prefix_in_prefixes s i : prefix s i -> In s (prefixes i).
+Lemma span_not_excl_scheme s : span_not_excl s = span_scheme s.
+Proof. induction s as [|c s IH]; cbn [span_not_excl span_scheme]; [reflexivity|]. now rewrite in_excl_is_sepb, IH. Qed.
+
+(** the model of the regular expression agrees with the reference definition *)
+Lemma bare_scheme_match_b s : bare_scheme_match s = bare_schemeb s.
 Proof.
-  intros [r ->]. unfold prefixes. apply in_map_iff. exists (List.length s). split.
-  - rewrite firstn_app, Nat.sub_diag, firstn_all. cbn. now rewrite app_nil_r.
-  - apply in_seq. rewrite app_length. lia.
+  unfold bare_scheme_match, bare_schemeb, opt_slashes. rewrite span_not_excl_scheme.
+  destruct bare_scheme_consts as (_ & -> & ->).
+  destruct (span_scheme s) as [sch rest]. destruct sch as [|x sch].
+  - destruct rest; reflexivity.
+  - destruct rest as [|c [|a [|b [|d r]]]]; cbn.
+    + reflexivity.
+    + destruct (Ascii.eqb c ":"); reflexivity.
+    + destruct (Ascii.eqb c ":"), (Ascii.eqb a "/"); reflexivity.
+    + destruct (Ascii.eqb c ":"), (Ascii.eqb a "/"), (Ascii.eqb b "/"); reflexivity.
+    + destruct (Ascii.eqb c ":"), (Ascii.eqb a "/"), (Ascii.eqb b "/"), (Ascii.eqb d "/");
+        cbn; rewrite ?andb_false_r; reflexivity.
 Qed.
 
+Lemma bare_scheme_match_spec s : bare_scheme_match s = true <-> bare_scheme s.
+Proof. rewrite bare_scheme_match_b. apply bare_schemeb_spec. Qed.
+
+(** ** "bare scheme" is downward closed among separator-terminated prefixes *)
+Lemma prefix_of_slashes t sl :
+  In sl [[]; Str "/"; Str "//"] -> prefix t sl -> In t [[]; Str "/"; Str "//"].
+Proof.
+  intros Hs [r Hr]. cbn in Hs.
+  destruct Hs as [<- | [<- | [<- | []]]].
+  - destruct t; [now left | discriminate].
+  - destruct t as [|a t]; [now left|]. cbn in Hr. injection Hr as Ha Ht. subst a.
+    destruct t; [right; now left | discriminate].
+  - destruct t as [|a t]; [now left|]. cbn in Hr. injection Hr as Ha Ht. subst a.
+    destruct t as [|b t]; [right; now left|]. cbn in Ht. injection Ht as Hb Ht. subst b.
+    destruct t; [right; right; now left | discriminate].
+Qed.
+
+Lemma bare_scheme_down cand p :
+  bare_scheme cand -> prefix p cand -> ends_with_sep p -> bare_scheme p.
+Proof.
+  intros (sch & NE & F & H) P E.
+  assert (exists sl, In sl [[]; Str "/"; Str "//"] /\ cand = (sch ++ Str ":") ++ sl) as (sl & Hsl & ->).
+  { destruct H as [-> | [-> | ->]].
+    - exists []. split; [now left | now rewrite app_nil_r].
+    - exists (Str "/"). split; [right; now left | now rewrite <- app_assoc].
+    - exists (Str "//"). split; [right; right; now left | now rewrite <- app_assoc]. }
+  destruct (Nat.le_gt_cases (List.length p) (List.length sch)) as [Le | Gt].
+  - exfalso. assert (Pp : prefix p sch).
+    { eapply prefix_comparable; [exact P | exists (Str ":" ++ sl); now rewrite <- app_assoc | exact Le]. }
+    destruct (ends_with_sep_In _ E) as (c & Hc & Sc). apply (F c); [eapply prefix_In; eassumption | assumption].
+  - assert (Pq : prefix (sch ++ Str ":") p).
+    { eapply prefix_comparable; [exists sl; reflexivity | exact P |]. rewrite app_length. cbn. lia. }
+    destruct Pq as [t ->]. destruct P as [r Hr]. rewrite <- (app_assoc (sch ++ Str ":") t r) in Hr. apply app_inv_head in Hr.
+    assert (Ht : In t [[]; Str "/"; Str "//"]) by (eapply prefix_of_slashes; [exact Hsl | exists r; exact Hr]).
+    exists sch. split; [assumption|]. split; [assumption|]. cbn in Ht.
+    destruct Ht as [<- | [<- | [<- | []]]]; rewrite <- ?app_assoc, ?app_nil_r; auto.
+Qed.
+
+(** ** [determine] *)
+Lemma determine_some l s : determine l = Some s ->
+  last_sep_prefix l s /\ 3 <= pylen s /\ ~ bare_scheme s.
+Proof.
+  unfold determine. rewrite min_len_is.
+  destruct (search_sep (rev l)) as [k|] eqn:Hs; [|discriminate].
+  destruct (pylen _ <? 3) eqn:H3; [discriminate|].
+  unfold scheme_test. rewrite rule_is_bare.
+  destruct (bare_scheme_match _) eqn:Hb; [discriminate|].
+  intros H; inversion H; subst. split; [now apply cand_spec|]. apply Z.ltb_ge in H3. split; [assumption|].
+  intros B. apply bare_scheme_match_spec in B. congruence.
+Qed.
+
+Lemma determine_none l : determine l = None ->
+  forall p, prefix p l -> ends_with_sep p -> 3 <= pylen p -> bare_scheme p.
+Proof.
+  unfold determine. rewrite min_len_is.
+  destruct (search_sep (rev l)) as [k|] eqn:Hs.
+  - pose proof (cand_spec _ _ Hs) as (Pc & Ec & Mx). set (cand := rev (skipn k (rev l))) in *.
+    destruct (pylen cand <? 3) eqn:H3.
+    + intros _ p P E L. apply Z.ltb_lt in H3. pose proof (pylen_prefix _ _ (Mx p P E)). lia.
+    + unfold scheme_test. rewrite rule_is_bare.
+      destruct (bare_scheme_match cand) eqn:Hb; [|discriminate].
+      intros _ p P E L. apply bare_scheme_match_spec in Hb.
+      apply (bare_scheme_down cand); [assumption | apply Mx; assumption | assumption].
+  - intros _ p P E _. exfalso. eapply no_cand; eassumption.
+Qed.
+
+(** ** the stem: all well-formed instance id lists, the property's own wording *)
+Theorem stem_some iris s : well_formed_ids iris -> stem iris = Some s -> is_longest s iris.
+Proof.
+  intros W H. unfold stem in H. pose proof (fold_min_iri_gcp iris W) as [C G].
+  apply determine_some in H. destruct H as ((P & E & Mx) & L & NH).
+  split.
+  - repeat split; try assumption. intros i Hi. eapply prefix_trans; [exact P | apply C, Hi].
+  - intros s' (C' & E' & _ & _). apply prefix_length, Mx; [apply G, C' | exact E'].
+Qed.
+
+Theorem stem_none iris : well_formed_ids iris -> stem iris = None -> forall s, ~ admissible s iris.
+Proof.
+  intros W H s (C' & E' & L' & NB). unfold stem in H. pose proof (fold_min_iri_gcp iris W) as [C G].
+  apply NB. eapply determine_none; [exact H | apply G, C' | exact E' | exact L'].
+Qed.
+
+(** a printed stem is moreover the longest separator-terminated common prefix
+    (the scheme clause never makes the code fall back to a shorter stem) *)
+Theorem stem_some_prefix_sep iris s :
+  well_formed_ids iris -> stem iris = Some s ->
+  common_prefix s iris /\ ends_with_sep s /\ 3 <= pylen s /\
+  forall s', common_prefix s' iris -> ends_with_sep s' -> (List.length s' <= List.length s)%nat.
+Proof.
+  intros W H. unfold stem in H. pose proof (fold_min_iri_gcp iris W) as [C G].
+  apply determine_some in H. destruct H as ((P & E & Mx) & L & NH).
+  repeat split; try assumption.
+  - intros i Hi. eapply prefix_trans; [exact P | apply C, Hi].
+  - intros s' C' E'. apply prefix_length, Mx; [apply G, C' | exact E'].
+Qed.
+
+Theorem stem_perm l l' : Permutation l l' -> well_formed_ids l -> stem l = stem l'.
+Proof. intros P W. unfold stem. now rewrite (fold_min_iri_perm l l' P W). Qed.
+
+(** ** the boolean domain predicate is sound *)
 Theorem C17_domb_sound iris : C17_domb iris = true -> C17_dom iris.
 Proof.
   unfold C17_domb. destruct iris as [|i0 l]; [discriminate|].
-  rewrite andb_true_iff, !forallb_forall. intros [NS R]. split.
-  - split; [discriminate|]. intros i Hi P. specialize (NS i Hi). apply prefixb_prefix in P.
-    rewrite P in NS. discriminate.
-  - intros s C E L.
-    assert (Hin : In s (prefixes i0)) by (apply prefix_in_prefixes, C; now left).
-    specialize (R s Hin). apply orb_true_iff in R. destruct R as [R | R].
-    + apply negb_true_iff in R. apply common_prefixb_spec in C. apply ends_with_sepb_spec in E.
-      apply Z.leb_le in L. rewrite C, E, L in R. discriminate.
-    + apply Bool.eqb_prop in R. rewrite <- bare_schemeb_spec, <- http_shortb_spec, R. tauto.
-Qed.
-
-(** ** the usual case is inside the domain: instance IRIs that all start with
-    [http://] or [https://] followed by a character that is neither a
-    separator nor (ill-formed UTF-8) a continuation byte *)
-Definition http_family (i : str) : Prop :=
-  exists x r, (i = Str "http://" ++ x :: r \/ i = Str "https://" ++ x :: r) /\ ~ is_sep x /\ is_cont x = false.
-
-Lemma pylen_cons x t : pylen (x :: t) = (if is_cont x then 0 else 1) + pylen t.
-Proof. unfold pylen. cbn. destruct (is_cont x); cbn [negb List.length]; lia. Qed.
-
-Lemma is_sep_not_cont c : is_sep c -> is_cont c = false.
-Proof. intros [-> | [-> | ->]]; reflexivity. Qed.
-
-Lemma coincide_on_scheme_prefixes P s :
-  forallb (fun s => negb (ends_with_sepb s && (3 <=? pylen s)) || Bool.eqb (bare_schemeb s) (http_shortb s))
-          (prefixes P) = true ->
-  prefix s P -> ends_with_sep s -> 3 <= pylen s -> (bare_scheme s <-> http_short s).
-Proof.
-  intros F Ps E L. rewrite forallb_forall in F. specialize (F s (prefix_in_prefixes _ _ Ps)).
-  apply ends_with_sepb_spec in E. apply Z.leb_le in L. rewrite E, L in F. cbn in F.
-  apply Bool.eqb_prop in F. rewrite <- bare_schemeb_spec, <- http_shortb_spec, F. tauto.
-Qed.
-
-Lemma beyond_scheme P x r s :
-  prefix s (P ++ x :: r) -> (List.length P < List.length s)%nat -> ends_with_sep s -> ~ is_sep x ->
-  exists t0 c, s = P ++ x :: t0 ++ [c] /\ is_sep c.
-Proof.
-  intros Ps Ln (s0 & c & -> & Sc) Nx.
-  assert (PP : prefix P (s0 ++ [c])).
-  { eapply prefix_comparable; [exists (x :: r); reflexivity | exact Ps | lia]. }
-  destruct PP as [t Ht]. rewrite Ht in Ps. destruct Ps as [r' Hr]. rewrite <- app_assoc in Hr.
-  apply app_inv_head in Hr.
-  destruct t as [|y t]; [rewrite Ht, app_nil_r in Ln; lia|].
-  cbn in Hr. inversion Hr; subst y.
-  destruct t as [|z t].
-  - exfalso. apply app_inj_tail in Ht. destruct Ht as [_ ->]. contradiction.
-  - assert (exists t0, z :: t = t0 ++ [c]) as [t0 Et].
-    { change (P ++ x :: z :: t) with (P ++ [x] ++ z :: t) in Ht.
-      destruct (exists_last (l := z :: t)) as (t0 & c' & Et); [discriminate|].
-      rewrite Et in Ht. rewrite !app_assoc in Ht. apply app_inj_tail in Ht. destruct Ht as [_ ->]. now exists t0. }
-    exists t0, c. rewrite Ht, Et. split; [reflexivity | assumption].
-Qed.
-
-Lemma http_family_in_dom iris : iris <> [] -> (forall i, In i iris -> http_family i) -> C17_dom iris.
-Proof.
-  intros NE F. split.
-  - split; [assumption|]. intros i Hi [r Hr]. destruct (F i Hi) as (x & r' & [-> | ->] & _); discriminate.
-  - intros s C E L. destruct iris as [|i0 l]; [contradiction|].
-    destruct (F i0 (or_introl eq_refl)) as (x & r & Hi0 & Nx & Cx).
-    assert (Ps : prefix s i0) by (apply C; now left).
-    destruct Hi0 as [-> | ->].
-    + destruct (Nat.le_gt_cases (List.length s) (List.length (Str "http://"))) as [Le | Gt].
-      * apply (coincide_on_scheme_prefixes (Str "http://")); try assumption; [vm_compute; reflexivity|].
-        eapply prefix_comparable; [exact Ps | exists (x :: r); reflexivity | exact Le].
-      * destruct (beyond_scheme _ _ _ _ Ps Gt E Nx) as (t0 & c & -> & Sc).
-        split.
-        -- intros B. apply bare_schemeb_spec in B. cbn in B. discriminate.
-        -- intros [_ Hl]. exfalso. change (Str "http://" ++ x :: t0 ++ [c]) with (Str "http://" ++ [x] ++ t0 ++ [c]) in Hl.
-           rewrite !pylen_app, !pylen_cons, Cx, (is_sep_not_cont c Sc) in Hl.
-           pose proof (pylen_nonneg t0). change (pylen (Str "http://")) with 7 in Hl. change (pylen []) with 0 in Hl. lia.
-    + destruct (Nat.le_gt_cases (List.length s) (List.length (Str "https://"))) as [Le | Gt].
-      * apply (coincide_on_scheme_prefixes (Str "https://")); try assumption; [vm_compute; reflexivity|].
-        eapply prefix_comparable; [exact Ps | exists (x :: r); reflexivity | exact Le].
-      * destruct (beyond_scheme _ _ _ _ Ps Gt E Nx) as (t0 & c & -> & Sc).
-        split.
-        -- intros B. apply bare_schemeb_spec in B. cbn in B. discriminate.
-        -- intros [_ Hl]. exfalso. change (Str "https://" ++ x :: t0 ++ [c]) with (Str "https://" ++ [x] ++ t0 ++ [c]) in Hl.
-           rewrite !pylen_app, !pylen_cons, Cx, (is_sep_not_cont c Sc) in Hl.
-           pose proof (pylen_nonneg t0). change (pylen (Str "https://")) with 8 in Hl. change (pylen []) with 0 in Hl. lia.
+  rewrite forallb_forall. intros NS. split; [discriminate|].
+  intros i Hi P. specialize (NS i Hi). apply prefixb_prefix in P. rewrite P in NS. discriminate.
 Qed.
